@@ -48,6 +48,7 @@ func solverCmd(name string, timeoutMs int) (string, []string) {
 }
 
 var absHeavyDiv bool
+var fastSolverName = "z3"
 
 var allowInit = func(path string) bool {
 	if strings.HasPrefix(path, "github.com/protolambda/zrnt/eth2/configs") {
@@ -81,6 +82,7 @@ func main() {
 	mergeCap := flag.Int("merge-cap", 3000, "step cap of a merge region")
 	out := flag.String("out", "", "result json path (default stdout)")
 	solver := flag.String("solver", "z3-new", "obligation solver: z3 (4.8.12), z3-new (5.1.0), cvc5")
+	fastSolver := flag.String("fast-solver", "z3", "feasibility solver: z3 (4.8.12) or z3-new (5.1.0)")
 	fastT := flag.Int("fast-timeout", 3000, "feasibility query timeout ms")
 	strongT := flag.Int("timeout", 60000, "obligation query timeout ms")
 	trace := flag.Bool("trace", false, "record call traces")
@@ -91,6 +93,7 @@ func main() {
 	flag.Parse()
 
 	absHeavyDiv = *absDiv
+	fastSolverName = *fastSolver
 	params := map[string]int{}
 	for _, kv := range strings.Split(*paramStr, ",") {
 		if kv == "" {
@@ -191,7 +194,7 @@ func emit(results []*Result, out string) {
 func runHarness(prog *ssa.Program, pkg *ssa.Package, f *ssa.Function, params map[string]int, tier, steps int, merge bool, mergeCap int,
 	solver string, fastT, strongT int, smtlog string, verbose, trace, record, symPtrs bool, prefixStr string) (res *Result) {
 	res = &Result{Harness: f.Name(), Params: params, Tier: tier, Kinds: map[string]int{}}
-	fb, fa := solverCmd("z3", fastT)
+	fb, fa := solverCmd(fastSolverName, fastT)
 	fast := NewSolver(fb, fa...)
 	fast.Incremental = os.Getenv("VERIF_NOINCR") == ""
 	sb, sa := solverCmd(solver, strongT)
